@@ -156,6 +156,8 @@ type scriptHandler struct {
 	sameW    bool
 	wantReq  *http.Request
 	wantW    http.ResponseWriter
+	reqSent  string      // fingerprint of the request (method + headers) as it was sent
+	reqSeen  string      // ... as the handler received it
 	entry    http.Header // deep copy of the header map on entry
 	exit     http.Header // deep copy on return
 	callsIn  int         // number of writer calls recorded at entry
@@ -181,6 +183,7 @@ func (s *scriptHandler) ServeHTTP(w http.ResponseWriter, r *http.Request) {
 	s.sameReq = r == s.wantReq
 	s.sameW = w == s.wantW
 	s.callsIn = len(s.rec.calls)
+	s.reqSeen = r.Method + " " + headerFP(r.Header)
 	s.entry = cloneHeader(s.rec.h)
 	applyOps(w.Header(), s.sc.Ops)
 	if s.sc.Status != 0 {
@@ -358,7 +361,7 @@ func c11Case(m *cors.Middleware, via http.Handler, dg *delegate, configured bool
 	rec := newRec(preset)
 	presetMap := cloneHeader(rec.h)
 	req := q.build()
-	h := &scriptHandler{sc: sc, wantReq: req, wantW: rec, rec: rec}
+	h := &scriptHandler{sc: sc, wantReq: req, wantW: rec, rec: rec, reqSent: req.Method + " " + headerFP(req.Header)}
 	pre := isPreflightC11(req)
 	// reach counters
 	if _, ok := presetMap["Vary"]; ok {
@@ -428,6 +431,9 @@ func c11Case(m *cors.Middleware, via http.Handler, dg *delegate, configured bool
 	c.hit("handler_invoked_once")
 	if !h.sameReq || !h.sameW {
 		return &Violation{Class: "argument-identity", Key: "identity", Detail: ctxs() + fmt.Sprintf(": same request=%v same writer=%v", h.sameReq, h.sameW)}
+	}
+	if h.reqSeen != h.reqSent {
+		return &Violation{Class: "request-mutated", Key: "request", Detail: ctxs() + fmt.Sprintf(": the client sent %s but the wrapped handler received %s (same *http.Request, contents rewritten)", h.reqSent, h.reqSeen)}
 	}
 	// nothing but Header() calls before the handler
 	for _, cl := range rec.calls[:h.callsIn] {
